@@ -12,8 +12,10 @@ RULE = ('cases: (i) C01 strings (molecule x partition x rendering), (ii) multi-l
         "'graph' holds exactly the fine nodes that record it; the sets cover the fine graph; the mapped nodes of "
         'a coarse node are in bijection with the template of its fragment name (same element/charge or node '
         'name, same internal bonds, equal orders for non-aromatic bonds, equal per-atom annotations), every '
-        'member reports that fragment name; virtual nodes have no members. non-trivial = a fragment name used '
-        '>=2 times with >=2 coarse nodes, or >=2 levels; distinct = string')
+        'member reports that fragment name; virtual nodes have no members; atoms annotated by the generator carry '
+        'the written annotation (independent of the template reader); every case is resolved a second time '
+        'through from_graph with other node keys and shuffled insertion order. non-trivial = a fragment name used '
+        '>=2 times, >=2 fragments of a dedicated/shared-atom string, or >=2 levels; distinct = string')
 ASSUMPTIONS = ['templates are read through cgsmiles\' own fragment reader (reader defects are the subject of C04/C13)',
                'for atoms merged by the shared-atom operator name/charge/annotation comparisons are skipped '
                '(which of the two atoms survives is unspecified); shared-atom descriptors are only written on neutral sp3 carbon',
@@ -27,7 +29,11 @@ def budget(tier):
 
 
 def gen(R, tier):
-    case = resgen.gen_resolvable(R, tier, kinds=('cut', 'levels', 'fragset', 'fragset'))
+    kind = R.choice(['cut', 'cutw', 'levels', 'fragset', 'fragset', 'shared', 'multicut'])
+    if kind == 'cutw':
+        case = resgen.gen_cut_string(R, tier, weights=True)
+    else:
+        case = resgen.gen_resolvable(R, tier, kinds=(kind,))
     if case is not None:
         case['perm_seed'] = R.randint(0, 10 ** 6)
         case['key_style'] = R.choice(['x10', 'reverse', 'same'])
@@ -40,7 +46,7 @@ def nontrivial(case):
     import re
     names = re.findall(r'\[#(\w+)', base)
     reused = len(names) >= 2 and len(set(names)) < len(names)
-    return case['nlevels'] >= 2 or reused or '|' in base
+    return case['nlevels'] >= 2 or reused or '|' in base or (case['kind'] in ('shared', 'multicut', 'cut') and case.get('nfr', 1) >= 2)
 
 
 def resolver_for(case):
@@ -92,9 +98,23 @@ def graph_variant(case):
 def oracle(case):
     def step(lv, cg, fine, templates, all_atom):
         invariants.check_mapping(cg, fine, templates, all_atom, 'level %d: ' % lv)
-    r0 = run_steps(case, step)
+    last = {}
+
+    def step2(lv, cg, fine, templates, all_atom):
+        step(lv, cg, fine, templates, all_atom)
+        last['fine'] = fine
+    r0 = run_steps(case, step2)
     if r0.resolution_counter < r0.resolutions:
         return
+    # annotations written by the generator (independent of the template reader) sit on the copies
+    for (name, pos), want in case.get('expect_annotations', []):
+        fine = last['fine']
+        hits = [n for n, d in fine.nodes(data=True) if [name, pos] in [list(mp) for mp in d.get('mapping', [])]]
+        expect(len(hits) == 1, 'mapping:annotated-atom-not-found', lambda: 'template atom %s[%d] maps to nodes %r' % (name, pos, hits))
+        d = fine.nodes[hits[0]]
+        for k, v in want.items():
+            expect(k in d and d[k] == v, 'mapping:annotation',
+                   lambda: 'atom %s[%d] (node %r) has %s=%r, written %r' % (name, pos, hits[0], k, d.get(k), v))
     r, keys = sut(graph_variant, case)
     for lv in range(r.resolutions):
         cg, fine = sut(r.resolve)
